@@ -493,7 +493,15 @@ def cq_universe(eff: List[dict]) -> str:
 
 def cq_request(u: dict, k: int, req: dict) -> str:
     from lib.vlib import cq_list, cq_str
-    api = [] if req["api"] is None else [FW_ID.get(x, 9) for x in (req["api"].get("names") or req["api"].get("classes") or [])]
+    # API entries by KIND: a str selects by class name, a class object by identity.  In this family class names are unique and a
+    # class is numbered by its name (cname = identity function), so the two kinds select the same classes here; same-named
+    # twins are the subject of the third family (harness/c10_twin.py)
+    if req["api"] is None:
+        api = []
+    elif "names" in req["api"]:
+        api = [f"AName {FW_ID.get(x, 9)}%nat" for x in req["api"]["names"]]
+    else:
+        api = [f"AClass {FW_ID.get(x, 9)}%nat" for x in req["api"]["classes"]]
     col = "None" if req["col"] is None else f"(Some ({nl(req['col']['en'])}, {nl(req['col']['dis'])}))"
     fdom = "None" if not req["fdom"] else f"(Some {cq_str(req['fdom'])})"
     ffw = "None" if not req["ffw"] else f"(Some {FW_ID.get(req['ffw'], 9)}%nat)"
@@ -501,7 +509,7 @@ def cq_request(u: dict, k: int, req: dict) -> str:
         links = "None"
     else:
         links = "(Some " + cq_list(f"({cq_list(cq_str(s) for s in l[0])}, {cq_list(cq_str(s) for s in l[1])})" for l in req["links"]) + ")"
-    return (f"{{| api := {nl(api)}; collector := {col}; fname := {cq_str(fname_of(u, k, req['name']))}; fdom := {fdom}; "
+    return (f"{{| api := {cq_list(api)}; collector := {col}; fname := {cq_str(fname_of(u, k, req['name']))}; fdom := {fdom}; "
             f"ffw := {ffw}; links := {links} |}}")
 
 
@@ -515,7 +523,7 @@ def cq_obs(o: dict) -> str:
 
 def case_term(u: dict, c: dict) -> str:
     eff = effective(u, c["k"])
-    env = f"{{| existing := {nl(c['env']['existing'])}; available := {nl(c['env']['available'])} |}}"
+    env = f"{{| existing := {nl(c['env']['existing'])}; available := {nl(c['env']['available'])}; cname := fun x => x |}}"
     return f"(({env}, {cq_universe(eff)}, {cq_request(u, c['k'], u['requests'][c['ri']])}), {cq_obs(c['obs'])})"
 
 
